@@ -21,5 +21,5 @@ fi
 # server with hooks + harness
 (cd /repo && go build -tags verif -o /verif/.work/bin/tile38-server ./cmd/tile38-server)
 cp /repo/go.sum harness/go.sum
-(cd harness && go build -tags verif -o ../.work/bin/harness ./cmd/harness)
+(cd harness && for d in cmd/*/; do n=$(basename $d); go build -tags verif -o ../.work/bin/harness-$(echo $n | tr a-z A-Z) ./cmd/$n || echo "setup: harness $n does not build"; done)
 echo "setup ok"
